@@ -1,6 +1,6 @@
 (* C16 - configuration is saved, duplicated and re-applied losslessly; user settings win.
    Statements only; proofs are in Config/Options_proofs.v. *)
-From CAres.Config Require Import Spec Vif Options_proofs Csv_proofs Dup_proofs Witness.
+From CAres.Config Require Import Spec Vif Options_proofs Wf_proofs Csv_proofs Dup_proofs Witness.
 From CAres.Gen Require Import Consts.
 From Coq Require Import String.
 Local Open Scope string_scope.
@@ -44,7 +44,8 @@ Print Assumptions C16_user_wins_pinned_refuted.
    produces from int-sized option values; inhabited, see C16_save_init_hypotheses_inhabited) and
    for all covered fields except the server list (the legacy struct holds IPv4 addresses only;
    servers are the subject of C16_dup / C16_csv_fixpoint and of the correspondence run).
-   Missing: channels whose timeout exceeds INT_MAX ms (C16_save_init_timeout_refuted). *)
+   Channels whose timeout exceeded INT_MAX ms (ARES_OPT_TIMEOUT above 2147483 s) cannot arise any
+   more: C16_timeout_seconds_clamped. *)
 Theorem C16_save_init_id_partial : forall nf g e c o m' c1,
   chan_wf c -> (has (c_optmask c) B_DOMAINS = true -> c_domains c <> []) ->
   save_options g c = Ok (o, m') -> init_options nf e o m' = Ok c1 ->
@@ -52,25 +53,42 @@ Theorem C16_save_init_id_partial : forall nf g e c o m' c1,
 Proof. exact save_init_effective. Qed.
 Print Assumptions C16_save_init_id_partial.
 
+(* chan_wf is not an assumption about channels in general: every channel that ares_init_options
+   returns for int-sized option values and a mask of defined bits satisfies it ... *)
+Theorem C16_init_gives_wf : forall nf e o m c,
+  opts_int o -> fits24 m -> init_options nf e o m = Ok c -> chan_wf c.
+Proof. exact init_options_wf. Qed.
+Print Assumptions C16_init_gives_wf.
+
+(* ... hence C16_save_init_id with hypotheses on the application's input only (the remaining
+   side condition: ARES_OPT_DOMAINS with an empty list asks for the host-name default, which
+   depends on the host name at the time of each initialisation) *)
+Theorem C16_save_init_id : forall nf g e e' o m c o' m' c1,
+  opts_int o -> fits24 m -> init_options nf e o m = Ok c ->
+  (has (c_optmask c) B_DOMAINS = true -> c_domains c <> []) ->
+  save_options g c = Ok (o', m') -> init_options nf e' o' m' = Ok c1 -> covered_same c c1.
+Proof. exact save_init_of_init. Qed.
+Print Assumptions C16_save_init_id.
+
 Theorem C16_save_init_hypotheses_inhabited :
   chan_wf ex_chan /\ (has (c_optmask ex_chan) B_DOMAINS = true -> c_domains ex_chan <> []) /\
   exists o m, save_options 0 ex_chan = Ok (o, m).
 Proof. exact chan_wf_example. Qed.
 Print Assumptions C16_save_init_hypotheses_inhabited.
 
-Theorem C16_save_init_timeout_refuted :
+Theorem C16_timeout_seconds_clamped :
   option_map c_timeout (match init_by_options (mkOpts 0 3000000 0 0 0 0 0 0 [] [] None 0 [] 0 0 0 0 0 0) 2 with Ok c => Some c | _ => None end)
     = Some (c_timeout wt_chan) /\
-  Z.testbit (c_optmask wt_chan) B_TIMEOUTMS = true /\
+  c_timeout wt_chan = 2147483647%Z /\
   match save_options 0 wt_chan with
   | Ok (o', m') => match init_by_options o' m' with
-                   | Ok c0 => Z.testbit (c_optmask c0) B_TIMEOUTMS = false /\ c_timeout c0 = 0%Z
+                   | Ok c0 => Z.testbit (c_optmask c0) B_TIMEOUTMS = true /\ c_timeout c0 = 2147483647%Z
                    | _ => False
                    end
   | _ => False
   end.
-Proof. exact save_init_timeout_refuted. Qed.
-Print Assumptions C16_save_init_timeout_refuted.
+Proof. exact save_init_timeout_clamped. Qed.
+Print Assumptions C16_timeout_seconds_clamped.
 
 (* C16_csv_fixpoint.  Full statement: parse_csv (render_csv l) = Ok l and it renders back to the
    same text, for every server list a channel can hold.  Proved for lists whose servers use one
@@ -78,8 +96,10 @@ Print Assumptions C16_save_init_timeout_refuted.
    premise addr_good (inet_pton (inet_ntop a) = a and the character shape of inet_ntop output;
    checked by computation in C16_csv_fixpoint_inhabited, sampled on the real functions by the
    correspondence run).  Missing: servers with differing UDP/TCP ports (dns:// form): shown on a
-   concrete server in C16_csv_uri_example, compared on every generated case, and REFUTED for
-   link-local servers whose interface name is not alphanumeric (C16_csv_fixpoint_refuted). *)
+   concrete servers in C16_csv_uri_example (incl. interface br-lan, fixed by
+   fixes/C16-uri-scope-charset.patch), compared on every generated case, and still REFUTED for
+   link-local servers whose interface name has characters that are not valid in a URI authority,
+   such as the alias interface "eth0:1" (C16_csv_fixpoint_refuted). *)
 Theorem C16_csv_fixpoint_partial : forall nf ifs flags cudp ctcp l txt,
   Forall (server_ok nf ifs) l ->
   ForallOrdPairs (fun a b => sconf_match cudp ctcp (entry_of b) (entry_of a) = false) l ->
@@ -97,14 +117,15 @@ Proof. exact csv_fixpoint_example. Qed.
 Print Assumptions C16_csv_fixpoint_inhabited.
 
 Theorem C16_csv_uri_example :
-  get_servers_csv nf [srv_eth0] = Ok (B "dns://[fe80::2%eth0]:5353?tcpport=53") /\
-  set_servers_csv nf (Some vif) 0 0 0 [] (B "dns://[fe80::2%eth0]:5353?tcpport=53") = Ok [srv_eth0].
-Proof. exact witness_uri_roundtrip. Qed.
+  (get_servers_csv nf [srv_eth0] = Ok (B "dns://[fe80::2%eth0]:5353?tcpport=53") /\
+   set_servers_csv nf (Some vif) 0 0 0 [] (B "dns://[fe80::2%eth0]:5353?tcpport=53") = Ok [srv_eth0]) /\
+  (set_servers_csv nf (Some vif) 0 5353 0 [] (B "fe80::2%br-lan") = Ok [srv_brlan] /\
+   get_servers_csv nf [srv_brlan] = Ok (B "dns://[fe80::2%br-lan]:5353?tcpport=53") /\
+   set_servers_csv nf (Some vif) 0 0 0 [] (B "dns://[fe80::2%br-lan]:5353?tcpport=53") = Ok [srv_brlan]).
+Proof. exact (conj witness_uri_roundtrip fixed_brlan_roundtrip). Qed.
 Print Assumptions C16_csv_uri_example.
 
-Theorem C16_csv_fixpoint_refuted :
-  set_servers_csv nf (Some vif) 0 5353 0 [] (B "fe80::2%br-lan") = Ok [srv_brlan] /\
-  get_servers_csv nf [srv_brlan] = Err ARES_EBADNAME.
+Theorem C16_csv_fixpoint_refuted : get_servers_csv nf [srv_alias] = Err ARES_EBADNAME.
 Proof. exact witness_csv_unrenderable. Qed.
 Print Assumptions C16_csv_fixpoint_refuted.
 
@@ -112,8 +133,8 @@ Print Assumptions C16_csv_fixpoint_refuted.
    addresses / socket functions, and on the ordered server list.  Proved for chan_wf channels
    whose servers use the plain text form (one port for UDP and TCP, premise addr_good per
    address), are pairwise different, and respect ARES_FLAG_PRIMARY.  Missing: servers with
-   differing ports (dns:// form).  Refuted instances: C16_save_init_timeout_refuted (timeout
-   above INT_MAX ms) and C16_csv_fixpoint_refuted (interface name the URI form rejects). *)
+   differing ports (dns:// form).  Refuted instance: C16_csv_fixpoint_refuted (interface name
+   the URI form cannot carry). *)
 Theorem C16_dup_partial : forall nf g e src d,
   chan_wf src -> (has (c_optmask src) B_DOMAINS = true -> c_domains src <> []) ->
   Forall (server_ok nf (c_ifs src)) (c_servers src) ->
